@@ -79,6 +79,10 @@ def run(ctx, rep):
     from props import _viewread
     _viewread.run(F, rep, "C01.view-read")
     blank_return(F, rep)
+    # a statement keyword is a word: `breakfast()` in a loop body is a call, not `break` followed by `fast()`
+    from props import _keywords
+    nk = _keywords.run(F, rep, "C01.keyword-boundary")
+    rep.floor("C01.keyword-boundary keyword sites judged", nk, 15)
     # an operand the folder drops is a statement's worth of output / a failure that never happens (`probe() || true`)
     from props import C15 as _c15
     _c15.fold_keeps_operands(F, rep, rule="C01.fold-keeps-operands")
